@@ -1,6 +1,7 @@
 package recovery
 
 import (
+	"bytes"
 	"encoding/json"
 	"fmt"
 	"io"
@@ -168,6 +169,15 @@ func LoadCheckpointList(fs storage.FileSystem, dataOwnership kv.DataOwnership, c
 		for levelIndex, level := range doc.Levels {
 			compositeCheckpointDoc.Levels[levelIndex] = append(compositeCheckpointDoc.Levels[levelIndex], level...)
 		}
+	}
+
+	// Levels below 0 are searched with a binary search over the tables' key
+	// ranges: after concatenating the levels of several checkpoints they must be
+	// put back in key order.
+	for levelIndex := 1; levelIndex < len(compositeCheckpointDoc.Levels); levelIndex++ {
+		slices.SortStableFunc(compositeCheckpointDoc.Levels[levelIndex], func(a, b sst.TableDocument) int {
+			return bytes.Compare(a.StartKey, b.StartKey)
+		})
 	}
 
 	compositeCheckpoint := newCheckpointFromDocument(fs, dataOwnership, compositeCheckpointDoc)
